@@ -399,10 +399,12 @@ class MinMaxAggregator:
         lits_without_vars = []
         rest_vars: set[AST] = set()  # variable names that are used in- but also outside of the aggregate
         inside_variables = set(chain(*map(lambda x: collect_ast(x, "Variable"), agg.atom.elements)))
+        global_vars = global_vars_inside_body(list(rule.body))
         for blit in rule.body:
             if blit == agg:
                 continue
-            blit_vars = set(collect_ast(blit, "Variable"))
+            # only the global variables of the literal: variables local to another aggregate are not shared
+            blit_vars = set(collect_ast(blit, "Variable")).intersection(global_vars)
             if len(blit_vars.intersection(inside_variables)) != 0:
                 rest_vars.update(blit_vars)
                 lits_with_vars.append(blit)
